@@ -148,9 +148,9 @@ macro_rules! rv_suite {
     }
   };
 }
-rv_suite!(spsc_rv, fibre::spsc::rendezvous, c05_q_rvspsc_recv_vs_try_send, c05_x_rvspsc_send_vs_try_recv, c01_q_rvspsc_recv_timeout_vs_try_send, c04_t_rvspsc_parked_vs_peer_drop, c03_q_rvspsc_try_send_ok_implies_paired);
-rv_suite!(mpsc_rv, fibre::mpsc::rendezvous, c05_q_rvmpsc_recv_vs_try_send, c05_x_rvmpsc_send_vs_try_recv, c01_q_rvmpsc_recv_timeout_vs_try_send, c04_t_rvmpsc_parked_vs_peer_drop, c03_q_rvmpsc_try_send_ok_implies_paired);
-rv_suite!(mpmc_rv, fibre::mpmc::rendezvous, c05_x_rvmpmc_recv_vs_try_send, c05_x_rvmpmc_send_vs_try_recv, c01_x_rvmpmc_recv_timeout_vs_try_send, c04_t_rvmpmc_parked_vs_peer_drop, c03_x_rvmpmc_try_send_ok_implies_paired);
+rv_suite!(spsc_rv, fibre::spsc::rendezvous, c05_q_rvspsc_recv_vs_try_send, c05_x_rvspsc_send_vs_try_recv, c01_q_rvspsc_recv_timeout_vs_try_send, c04_x_rvspsc_parked_vs_peer_drop, c03_q_rvspsc_try_send_ok_implies_paired);
+rv_suite!(mpsc_rv, fibre::mpsc::rendezvous, c05_q_rvmpsc_recv_vs_try_send, c05_x_rvmpsc_send_vs_try_recv, c01_q_rvmpsc_recv_timeout_vs_try_send, c04_x_rvmpsc_parked_vs_peer_drop, c03_q_rvmpsc_try_send_ok_implies_paired);
+rv_suite!(mpmc_rv, fibre::mpmc::rendezvous, c05_x_rvmpmc_recv_vs_try_send, c05_x_rvmpmc_send_vs_try_recv, c01_x_rvmpmc_recv_timeout_vs_try_send, c04_x_rvmpmc_parked_vs_peer_drop, c03_x_rvmpmc_try_send_ok_implies_paired);
 
 // ---------------------------------------------------------------- async fronts, sequential at poll granularity
 use std::future::Future;
@@ -249,10 +249,10 @@ macro_rules! rv_async_suite {
     }
   };
 }
-rv_async_suite!(spsc_rva_s, fibre::spsc::rendezvous, true, c03_t_rvspsc_async_pairing_sender_first, c06_t_rvspsc_async_cancel_send, c04_t_rvspsc_async_receiver_gone);
+rv_async_suite!(spsc_rva_s, fibre::spsc::rendezvous, true, c03_x_rvspsc_async_pairing_sender_first, c06_x_rvspsc_async_cancel_send, c04_x_rvspsc_async_receiver_gone);
 rv_async_suite!(spsc_rva_r, fibre::spsc::rendezvous, false, c03_q_rvspsc_async_pairing_receiver_first, c06_q_rvspsc_async_cancel_recv, c04_q_rvspsc_async_sender_gone);
-rv_async_suite!(mpsc_rva_s, fibre::mpsc::rendezvous, true, c03_t_rvmpsc_async_pairing_sender_first, c06_t_rvmpsc_async_cancel_send, c04_t_rvmpsc_async_receiver_gone);
-rv_async_suite!(mpsc_rva_r, fibre::mpsc::rendezvous, false, c03_t_rvmpsc_async_pairing_receiver_first, c06_t_rvmpsc_async_cancel_recv, c04_t_rvmpsc_async_sender_gone);
+rv_async_suite!(mpsc_rva_s, fibre::mpsc::rendezvous, true, c03_x_rvmpsc_async_pairing_sender_first, c06_x_rvmpsc_async_cancel_send, c04_x_rvmpsc_async_receiver_gone);
+rv_async_suite!(mpsc_rva_r, fibre::mpsc::rendezvous, false, c03_x_rvmpsc_async_pairing_receiver_first, c06_x_rvmpsc_async_cancel_recv, c04_x_rvmpsc_async_sender_gone);
 
 /// C04: a receive is pending, then the receiver handle is closed: every later send form reports Closed
 /// and hands the value back; the pending receive never yields a value afterwards.
